@@ -44,7 +44,7 @@ func c17Universe() []gen.V {
 			u = append(u, gen.Float(float64(k)/4)) // whole-number floats too
 		}
 	}
-	for _, s := range []string{"7", "-3", "2.50", "0", "x", "", "1e", "010", "-017", "0x10", "007.50"} {
+	for _, s := range []string{"7", "-3", "2.50", "0", "x", "", "1e", "010", "-017", "0x10", "007.50", "nan", "inf", "-Inf", "NaN", "infinity"} {
 		u = append(u, gen.Str(s))
 	}
 	u = append(u, gen.Nil)
